@@ -199,7 +199,10 @@ def finish(ctx):
     known = [k for k in load_known() if k.get("property") == ctx.pid and k.get("status") == "known"]
     b = ctx.build or {}
     # a broken obligation or correspondence with no concrete failing input is still a violation
-    concrete = [v for v in ctx.violations if v["found"]]
+    known_keys = set(k.get("key") for k in known)
+    # only concrete failing inputs that are NOT already-listed findings can explain a broken
+    # obligation / correspondence; a listed finding never hides a new breakage
+    concrete = [v for v in ctx.violations if v["found"] and v["key"] not in known_keys]
     if not concrete:
         for t in b.get("failed", []):
             ctx.violation("obligation:" + t, "proof obligation no longer checks: " + t,
